@@ -549,13 +549,20 @@ func (w *worker[T, JobType]) start() error {
 
 // startRun starts a run; the caller holds the lifecycle lock.
 func (w *worker[T, JobType]) startRun() error {
-	// a run is started once: from Initiated (first bind, Resume) or by Restart, which resets the
-	// status first. Binding another queue to a running, paused or stopped worker must not start
-	// a second event loop or change the state.
+	// a run is started once from Initiated (first bind, Resume); Restart starts the next one itself.
+	// Binding another queue to a running, paused or stopped worker must not start a second event
+	// loop or change the state.
 	if w.status.Load() != initiated {
 		return ErrRunningWorker
 	}
 
+	w.run()
+
+	return nil
+}
+
+// run starts the goroutines of a run and marks the worker running; the caller holds the lifecycle lock.
+func (w *worker[T, JobType]) run() {
 	defer w.notifyToPullNextJobs()
 	defer w.status.Store(running)
 
@@ -565,8 +572,6 @@ func (w *worker[T, JobType]) startRun() error {
 
 	// init the first worker by default
 	w.pool.PushNode(w.initPoolNode())
-
-	return nil
 }
 
 func (w *worker[T, JobType]) TunePool(concurrency int) error {
@@ -719,12 +724,9 @@ func (w *worker[T, JobType]) Restart() error {
 	}
 	w.mx.Unlock()
 
-	// Reset status to initiated to allow startRun() to proceed
-	w.status.Store(initiated)
-
-	if err := w.startRun(); err != nil {
-		return err
-	}
+	// the status stays paused/stopped until the new run is up, so that a dispatcher of the previous
+	// run that is still inside processNextJob gives its slot back instead of dispatching
+	w.run()
 
 	return nil
 }
